@@ -269,18 +269,23 @@ def main(tier, seed, replay=None):
             json.dump(spec, open(sp, "w"))
             outp = os.path.join(d, f"doc_{k}.rs")
             rc, txt = vlib.oas(["generate", "types", "-i", sp, "-o", outp, "-q", "--all-schemas"], timeout=60)
-            return rc, txt[-200:], outp
+            spec2 = {"openapi": "3.1.0", "info": {"title": "t", "version": "1"},
+                     "paths": {"/x": {"get": {"operationId": "getX", "responses": {"200": {"description": t}}}}}}
+            sp2, outp2 = os.path.join(d, f"docr_{k}.json"), os.path.join(d, f"docr_{k}.rs")
+            json.dump(spec2, open(sp2, "w"))
+            rc2, txt2 = vlib.oas(["generate", "types", "-i", sp2, "-o", outp2, "-q"], timeout=60)
+            return rc or rc2, (txt + txt2)[-200:], outp, outp2
         dres = vlib.pmap(doc_one, range(len(texts)))
-        okf = [r[2] for r in dres if r[0] == 0]
+        okf = [f for r in dres if r[0] == 0 for f in r[2:4]]
         dsk = {x["file"]: x for x in vlib.vtool_lines("skeleton", okf)}
-        inputs = [("T" + t) for t in texts] + texts
+        inputs = [("T" + t) for t in texts] + texts + ["200: " + t for t in texts]
         model = vlib.coq_doc_lines(d, inputs)
         for k, t in enumerate(texts):
-            rc, txt, outp = dres[k]
+            rc, txt, outp, outp2 = dres[k]
             n_doc += 1
             kind = "crlf" if "\r\n" in t else "cr" if "\r" in t else "lf" if "\n" in t else "none"
             doc_dist[kind] = doc_dist.get(kind, 0) + 1
-            if rc != 0 or outp not in dsk or "error" in dsk[outp]:
+            if rc != 0 or outp not in dsk or "error" in dsk[outp] or outp2 not in dsk or "error" in dsk[outp2]:
                 viol.append(("doc-lines", t, "types", f"description/title {t!r}: generator failed or output does not parse: {txt}"))
                 continue
             docs = [l[4:] for l in dsk[outp]["literals"] if l.startswith("doc:")]
@@ -295,6 +300,16 @@ def main(tier, seed, replay=None):
             if model is None:
                 continue
             want_title, want_desc = canon(model[k]), canon(model[len(texts) + k])
+            docs2 = [l[4:] for l in dsk[outp2]["literals"] if l.startswith("doc:")]
+            if " Response types for getX" in docs2 and "default: Unknown response" in docs2:
+                got_resp = [l.rstrip(" ") for l in docs2[docs2.index(" Response types for getX") + 1:docs2.index("default: Unknown response")]]
+                want_resp = [l.rstrip(" ") for l in model[2 * len(texts) + k]]
+                if got_resp != want_resp:
+                    viol.append(("doc-lines", t, "types", f"response description {t!r}: variant doc lines {got_resp} differ from the model's {want_resp} (Model/DocLines.v)"))
+                    continue
+            else:
+                viol.append(("doc-lines", t, "types", f"response description {t!r}: the response enum's doc lines were not found"))
+                continue
             if got_title != want_title:
                 viol.append(("doc-lines", t, "types", f"title {'T' + t!r}: header doc lines {got_title} differ from the model's {want_title} (Model/DocLines.v)"))
             elif got_desc != want_desc:
